@@ -112,6 +112,9 @@ def c13(r):
     import os, shutil, vlib
     r.tlc_exhaustive("Loops.tla", "Loops.cfg", workers=4)
     r.tlc_exhaustive("Loops.tla", "Loops_past.cfg", workers=4)
+    # the end-to-end composition whose cross-node guarantees the concurrent runs are validated against
+    r.tlc_exhaustive("World.tla", "World.cfg", workers=16)
+    r.tlc_exhaustive("World.tla", "World_live.cfg", workers=8)
     for cfg in ("Loops_sleep.cfg", "Loops_send.cfg"):
         ok, _ = r.tlc_exhaustive("Loops.tla", cfg, workers=4, expect_ok=False)
         if ok:
